@@ -208,6 +208,13 @@ fn run_generic<K: KeyT, V: ValT>(prop: Prop, spec: &RunSpec, want_transcript: bo
     let mut leak_check = true;
     let mut stopped = false;
     let hmode = spec.cfg.map_hashers.first().or(spec.cfg.set_hashers.first()).map_or(0, |h| h.mode as u8);
+    // C05 after an interrupted clone_from: the destination's contents are unspecified, and on
+    // a defective tree they need not even be self-consistent. C05 is about memory safety only,
+    // so from there on the run goes on *whatever lookups answer* (the models adopt what
+    // iteration yields after every call, wrong results are not its business) and judges
+    // structure: liveness, no object stored twice, I1, survival under ASan. Stopping at the
+    // first wrong answer would stop short of the out-of-bounds insertion of defect D8.
+    let mut structural = false;
     for (i, op) in spec.ops.iter().enumerate() {
         let fault = spec.faults.iter().find(|f| f.at == i);
         let mut fuse = fault.map(|f| f.nth);
@@ -220,6 +227,41 @@ fn run_generic<K: KeyT, V: ValT>(prop: Prop, spec: &RunSpec, want_transcript: bo
         }
         let so = w.exec(i, op, fuse, false);
         ctx::with(|c| c.drop_fuse = None);
+        if structural {
+            out.steps += 1;
+            out.op_kinds.push(op.kind());
+            let mut anomalies: Vec<Anomaly> = Vec::new();
+            let mut internal_panic = false;
+            for a in so.anomalies {
+                match a.class {
+                    "ledger" | "I1-cursor" => anomalies.push(a),
+                    "unexpected-panic" if a.detail.contains("panic:documented:index") => {}
+                    "unexpected-panic" => {
+                        internal_panic = true;
+                        out.foreign.push("unexpected-panic");
+                    }
+                    _ => {}
+                }
+            }
+            if let Some((site, _)) = so.injected {
+                *out.faults.entry(format!("panic@{}", site.name())).or_insert(0) += 1;
+            }
+            if internal_panic {
+                stopped = true;
+            } else {
+                match w.adopt_observed(None) {
+                    Ok(()) => anomalies.extend(w.chaos_structural(i, op.kind())),
+                    Err(_) => stopped = true,
+                }
+            }
+            if absorb(prop, &mut out, anomalies, false) {
+                stopped = true;
+            }
+            if stopped {
+                break;
+            }
+            continue;
+        }
         out.steps += 1;
         out.op_kinds.push(op.kind());
         for p in &so.probes {
@@ -279,6 +321,11 @@ fn run_generic<K: KeyT, V: ValT>(prop: Prop, spec: &RunSpec, want_transcript: bo
                     }
                     stopped = true;
                 }
+                if prop == Prop::C05 && !stopped && interrupted_clone_from {
+                    structural = true;
+                    ctx::with(|c| c.structural = true);
+                    out.probes.push("structural-tail-after-interrupted-clone_from");
+                }
                 if prop == Prop::C05 && !stopped {
                     // the cached position must agree with the old table after *every* call,
                     // also one that unwound
@@ -334,8 +381,12 @@ fn run_generic<K: KeyT, V: ValT>(prop: Prop, spec: &RunSpec, want_transcript: bo
         std::mem::forget(w);
     } else {
         let n = spec.ops.len();
-        let a = w.teardown(n, leak_check);
+        let mut a = w.teardown(n, leak_check && !structural);
+        if structural {
+            a.retain(|a| a.class == "ledger");
+        }
         absorb(prop, &mut out, a, false);
     }
+    ctx::with(|c| c.structural = false);
     out
 }
